@@ -718,11 +718,13 @@ func (fx *Facts) retPaths(fn *ssa.Function, idx int, want Want) []RetPath {
 		if !ok || idx >= len(ret.Results) {
 			continue
 		}
-		in := fx.blockFacts(fn, 0)[b]
-		if in.Bottom {
+		if fx.blockFacts(fn, 0)[b].Bottom {
 			continue
 		}
-		fx.valuePaths(unspill(ret, idx), want, in, instrPos(ret), &out, 0)
+		// split the merge at the return block: one fact set per incoming path (bounded)
+		for _, in := range fx.pathFactsTo(b, 3) {
+			fx.valuePaths(unspill(ret, idx), want, in, instrPos(ret), &out, 0)
+		}
 	}
 	return out
 }
@@ -738,6 +740,9 @@ func (fx *Facts) valuePaths(v ssa.Value, want Want, base FactSet, pos token.Pos,
 			// the facts at the return block are dominated-by facts; the edge facts are at least as strong
 			s := base.clone()
 			s.addAll(ef)
+			if s.Bottom {
+				continue // this combination of incoming path and phi edge is contradictory
+			}
 			p := pos
 			if last := pred.Instrs[len(pred.Instrs)-1]; last.Pos().IsValid() {
 				p = last.Pos()
@@ -752,6 +757,9 @@ func (fx *Facts) valuePaths(v ssa.Value, want Want, base FactSet, pos token.Pos,
 	}
 	s := base.clone()
 	s.addAll(vf)
+	if s.Bottom {
+		return
+	}
 	*out = append(*out, RetPath{Facts: s, Pos: pos, Desc: termOf(v).String()})
 }
 
@@ -810,4 +818,48 @@ func unspill(ret *ssa.Return, idx int) ssa.Value {
 		}
 	}
 	return v
+}
+
+// pathFactsTo: the facts on entry to b, split per incoming edge (recursively to the given depth, at most
+// 16 sets): each set is the IN of a predecessor plus its branch condition, so a disjunctive requirement
+// ("every way of getting here satisfies R1 or R2") can be decided per path instead of on the intersection.
+func (fx *Facts) pathFactsTo(b *ssa.BasicBlock, depth int) []FactSet {
+	in := fx.blockFacts(b.Parent(), 0)[b]
+	if depth <= 0 || len(b.Preds) < 2 || loopHeaderOf(b) == b {
+		return []FactSet{in}
+	}
+	// phis in b make per-edge splitting of values the caller's business (valuePaths); splitting facts is still sound
+	var out []FactSet
+	for _, p := range b.Preds {
+		ef := fx.edgeFacts(p, b, 0)
+		if ef.Bottom {
+			continue
+		}
+		// split further through p when p is a pure merge
+		subs := []FactSet{ef}
+		if len(p.Preds) >= 2 && depth > 1 && loopHeaderOf(p) != p {
+			subs = nil
+			for _, pf := range fx.pathFactsTo(p, depth-1) {
+				s := pf.clone()
+				if iff, ok := p.Instrs[len(p.Instrs)-1].(*ssa.If); ok && p.Succs[0] != p.Succs[1] {
+					w := WantFalse
+					if p.Succs[0] == b {
+						w = WantTrue
+					}
+					s.addAll(fx.valueFacts(iff.Cond, w, 0, map[ssa.Value]bool{}))
+				}
+				if !s.Bottom {
+					subs = append(subs, s)
+				}
+			}
+		}
+		out = append(out, subs...)
+		if len(out) > 16 {
+			return []FactSet{in}
+		}
+	}
+	if len(out) == 0 {
+		return []FactSet{in}
+	}
+	return out
 }
